@@ -11,7 +11,7 @@ THEOREMS = ["Genql.C05." + t for t in [
     "sort_perm", "sort_sorted", "window_exact", "window_never_fails"]] + \
     ["Genql.Pipeline." + t for t in ["select_pipeline", "select_filter_project", "select_distinct"]] + \
     ["Genql.C05." + t for t in ["keyedLess_eq", "keyedLess_swo", "sortRows_perm", "sortRows_sorted"]] + \
-    ["Genql.Obligations.C05." + t for t in ["sort_comparator_lines", "window_lines"]]
+    ["Genql.Obligations.C05." + t for t in ["sort_comparator_lines", "window_lines", "exec_stage_order"]]
 TRUSTED = ["Go sort.Slice returns a permutation without inversions for a strict weak order (it is not stable: tie order "
            "is never compared)", "sqlparser"]
 RULE = ("random tables (0-10 rows) x key lists of 1-3 keys (ties, both directions; NULL keys only with a single key) compared by "
